@@ -1,12 +1,20 @@
-"""C13 — the encrypted transport delivers exactly the bytes written, or fails (engine K; PARTIAL claim).
+"""C13 — the encrypted transport delivers exactly the bytes written, or fails (engine K; bounded claim).
 
-Decided (Kani on the real network/src/noise/bytes.rs, path-included): the representation invariant begin <= end <= cap
-of the frame/payload Buffer and the contracts of every operation the stream code uses (push, extend, take, prefix,
-set_prefix, shift, reset, as_mut_capacity) from EVERY reachable buffer state of capacity 8 with symbolic contents:
-no out-of-bounds access under the callers' preconditions, exactly the claimed bytes move; the read-path frame
-consumption step; and the frame-size constants of stream.rs (payload chunk <= 65535 - 16, frame <= 65535 + 2).
-NOT decided: the poll_read / poll_write state machines of noise/stream.rs themselves (they need snow and tokio; the
-file cannot be compiled into a Kani harness), the cipher, long streams, tampering detection (AEAD property of snow).
+Decided by Kani/CBMC on the REAL source files:
+ (1) noise/bytes.rs (path-included): representation invariant begin <= end <= cap of the frame/payload Buffer and the
+     contract of every operation the stream uses, from EVERY buffer state of capacity 8 with symbolic contents;
+ (2) noise/stream.rs (kani/noisestream): the poll_read / poll_write / poll_flush / poll_shutdown state machine itself,
+     compiled from the real file with ONE textual substitution made by build.rs on every build — MAX_TRANSPORT_MSG_LEN
+     65535 -> 20 (payload chunk 4 bytes, frame 22 bytes; the build fails if the constant is not found exactly once with
+     the value 65535) — against an ideal-cipher model of snow (ciphertext = masked plaintext + 16 tag bytes bound to a
+     per-direction nonce; a wrong tag / short message is an error) and a nondeterministic transport that returns
+     Pending, accepts partial writes and delivers short reads within stated budgets. Harnesses: what is written and
+     flushed/shut down appears on the wire exactly once, frame by frame, with no byte re-sent after a partial write or a
+     Pending; two back-to-back frames are delivered completely and in order before any EOF, also when split over reads;
+     small reads; an arbitrary (tampered) wire never panics and delivers only the body of a genuine first frame; an
+     end-to-end write/flush/read round trip; the handshake functions return the fresh state the harnesses start from.
+NOT decided: the real cipher (AEAD property of snow), frames of real size / long streams (scaling), more than two
+frames per harness, the handshake I/O, MeteredStream.
 """
 from props import kani_part
 NEEDS_MIR = False
@@ -14,7 +22,9 @@ PROP = 'C13'
 
 
 def run(rep, db, tier, seed):
-    rep.assumptions += ['only the buffer arithmetic under noise::Stream is decided; ordering / no-loss / tamper detection of the stream state machine rest on snow (ChaChaPoly AEAD) and are outside this claim']
-    rep.bounds = dict(buffer_capacity=8, contents='symbolic bytes', states='every begin <= end <= capacity reached through the real API')
+    rep.assumptions += ['snow is replaced by an ideal cipher model (tag bound to the nonce; body integrity of the real AEAD is not modelled)',
+                        'MAX_TRANSPORT_MSG_LEN is scaled 65535 -> 20 by build.rs (single checked substitution); behaviour that depends on the real sizes is outside',
+                        'the write-side mock assumes a frame is first offered to the transport as a whole (true for this implementation)']
+    rep.bounds = dict(buffer_capacity=8, contents='symbolic bytes', stream='<= 3 writer operations, <= 2 frames on the wire, <= 5 reads, Pending / partial-transfer budgets 0..2 per harness (see kani/harnesses.json), frame size scaled to 22 bytes')
     kani_part.run(rep, PROP, tier, max_parallel=4)
-    rep.extra['explanation'] = 'Kani proofs of the Buffer contracts used by the noise stream on the real source file; the stream state machine itself is outside'
+    rep.extra['explanation'] = 'Kani proofs on the real bytes.rs (buffer contracts) and on the real stream.rs state machine with scaled frame size, ideal cipher and nondeterministic back-pressure'
